@@ -5,7 +5,9 @@ namespace QGen.C14
 def hit (u c : Rat) : Bool := decide (u < c)
 /-- start value of the running sum -/
 def cumStart : Rat := 0
-/-- the fall-through `return len(probdist) - 1` -/
+/-- the backward loop after a fall-through: `for index in range(len - 1, -1, -1): if probdist[index] > 0: return index` -/
+def fallKeep (p : Rat) : Bool := decide (p > 0)
+/-- the final `return len(probdist) - 1` (no entry passes the backward test) -/
 def fallThrough (len : Int) : Int := len - 1
 /-- `to_stream`: what the branches for `None`, an `int`, anything else return.
 0 = numpy's global state (`np.random`), 1 = a fresh `Generator(MT19937(seed))`, 2 = the argument itself -/
